@@ -10,7 +10,7 @@ lists the property under "caught_by" -- a scratch copy of the repository is made
 under $TMPDIR (outside /repo and /verif), the patch is applied, `go build ./...`
 must still succeed, and the property's check is run against the copy. A mutant
 is "caught" when the check exits 1 with a VIOLATION line. The copy is removed
-straight afterwards; one variant at a time.
+straight afterwards; a few variants at a time (VERIF_JOBS, default 6; each is its own process).
 Writes evidence/.selftest-<id>.json; exit status 0 = all as expected.
 """
 import json, os, shutil, subprocess, sys, tempfile, glob, time
@@ -34,6 +34,10 @@ def mutants(prop):
         d = os.path.dirname(m)
         if prop in meta.get("caught_by", []):
             out.append({"name": "seeded/" + os.path.basename(d), "patch": os.path.join(d, "patch.diff"), "expect": "caught"})
+    # behaviour-preserving edits (hand-written and agent-written refactors, each with its argument in the .md next
+    # to it): no check may report them or become undecided on them
+    for p in sorted(glob.glob(os.path.join(HERE, "selftest", "ALL", "neg-*.diff"))):
+        out.append({"name": "selftest/ALL/" + os.path.basename(p)[:-5], "patch": p, "expect": "silent", "nobuild": True})
     return out
 
 
@@ -50,7 +54,7 @@ def run_one(prop, mu):
         if ap.returncode != 0:
             res.update(status="skipped", why="patch does not apply to the current tree: " + (ap.stderr or ap.stdout).strip()[:200])
             return res
-        b = subprocess.run(["go", "build", "./..."], cwd=dst, env=ENV, capture_output=True, text=True)
+        b = subprocess.run(["true"] if mu.get("nobuild") else ["go", "build", "./..."], cwd=dst, env=ENV, capture_output=True, text=True)
         if b.returncode != 0:
             res.update(status="skipped", why="mutant does not compile: " + b.stderr.strip()[:200])
             return res
@@ -83,10 +87,11 @@ def main():
     bad = 0
     for prop in props:
         results = []
-        for mu in mutants(prop):
-            if only and only not in mu["name"]:
-                continue
-            r = run_one(prop, mu)
+        todo = [mu for mu in mutants(prop) if not (only and only not in mu["name"])]
+        import concurrent.futures as cf
+        with cf.ThreadPoolExecutor(max_workers=int(os.environ.get("VERIF_JOBS", "6"))) as ex:
+            done = list(ex.map(lambda mu: run_one(prop, mu), todo))
+        for r in done:
             results.append(r)
             print("%-10s %-55s expect=%-6s -> %s %s" % (prop, r["name"], r["expect"], r.get("got", r["status"]), r.get("why", "") or ",".join(r.get("violated", [])[:2])))
             if r["status"] == "UNEXPECTED":
